@@ -232,8 +232,24 @@ fn battery<C: GenericConfig<D, F = F> + 'static>(c: &Circ<C>, s: &Sers, rep: &mu
     let common_bytes = match flat(gd(|| data.common.to_bytes(s.gs))) {
         Ok(b) => b,
         Err(e) => {
+            // which gates / generators are not registered with this serializer pair?
+            let mut gates: Vec<String> = vec![];
+            for g in &data.common.gates {
+                let mut buf = Vec::new();
+                if s.gs.write_gate(&mut buf, g, &data.common).is_err() && !gates.contains(&g.0.id()) {
+                    gates.push(g.0.id());
+                }
+            }
+            let mut gens: Vec<String> = vec![];
+            for g in &data.prover_only.generators {
+                let mut buf = Vec::new();
+                if s.ws.write_generator(&mut buf, g, &data.common).is_err() && !gens.contains(&g.0.id()) {
+                    gens.push(g.0.id());
+                }
+            }
             rep.check("unsupported", "CommonCircuitData/encode", true, json!({"err": e, "serializer": s.name}));
-            return json!({"unsupported": format!("gate serializer {} cannot encode this circuit: {e}", s.name)});
+            return json!({"unsupported": format!("gate serializer {} cannot encode this circuit: {e}", s.name),
+                          "unregistered_gates": gates, "unregistered_generators": gens});
         }
     };
     sizes["common"] = json!(common_bytes.len());
